@@ -24,7 +24,17 @@ BASE_ENV = {
     "PATH": "/usr/bin:/bin",
 }
 
-CPU_LIMIT_S = 10
+CPU_LIMIT_S = 30
+OP_CPU_S = 3.0  # CPU (not wall) budget of a single operation; a normal one burns < 0.05 s
+
+
+class HangDetected(BaseException):
+    """raised inside an operation that used up its CPU budget: non-termination, judged in CPU time so that
+    a loaded machine cannot turn a slow run into a false alarm"""
+
+
+def _on_vtalrm(signum, frame):
+    raise HangDetected("operation exceeded its CPU budget of %.0f s" % OP_CPU_S)
 AS_LIMIT = 4 << 30
 
 
@@ -153,7 +163,12 @@ def run_op(fn, stdin=None):
         with warnings.catch_warnings():
             warnings.simplefilter("ignore")
             try:
-                o.value = fn()
+                signal.signal(signal.SIGVTALRM, _on_vtalrm)
+                signal.setitimer(signal.ITIMER_VIRTUAL, OP_CPU_S)
+                try:
+                    o.value = fn()
+                finally:
+                    signal.setitimer(signal.ITIMER_VIRTUAL, 0)
                 o.kind = "ret"
             except ArgumentError as ex:
                 o.kind, o.exc, o.text = "AE", ex, str(ex)
